@@ -229,6 +229,29 @@ example : Xc.q.implicitInnerCase = false ∧ Xc.q.autodelDirectCase = false ∧ 
   refine ⟨rfl, rfl, lookupOk_of_B Xc (by decide), caseWf_of_B Xc (by decide), Or.inl (noNpContInCase_of_B Xc (by decide)), by decide, by decide,
     by decide, by decide⟩
 
+/-- **the normal form of validation** (same class and hypotheses as `validate_idempotent_choice`; not the `LYD_VALIDATE_PRESENT`
+call on an empty tree, which returns at once): a tree is left as it is by `lyd_validate`, with an empty change set, **iff** it is
+*stable* — and the result of every validation is.  Spelled out (`StableTop_spec`, `StableN_spec`), on the top level and on the
+children of every inner node: every schema node *in use* has an instance (`wantL`: default-bearing nodes in the selected cases,
+see `implicit_exact_choice`); no default-flagged node is the leftover of a case that does not exist and is not the default case
+(`NV`); no node carries `LYD_NEW`; and every explicit non-presence container has an explicit child. -/
+theorem validate_normal_form (X : SchemaX) (o : VOpts) (t : List DNode)
+    (hq1 : X.q.implicitInnerCase = false) (hq2 : X.q.autodelDirectCase = false)
+    (hl : KidsLookupOk X) (hw : CaseWf X) (hnp : NoNpContInCase X ∨ (npInvL X.base t ∧ newExplL t))
+    (hp : placedCL X X.top t = true) (hh : sheightL X.top ≤ walkFuel X t) (hpe : (o.present && t.isEmpty) = false) :
+    StableTop X o (validate X o t).tree ∧
+    (((validate X o t).tree = t ∧ (validate X o t).evs = []) ↔ StableTop X o t) ∧
+    (StableTop X o t ↔ (∀ sid, wantL o (hasInst t) X.top sid = true → hasInst t sid = true) ∧ NV X t ∧
+      (∀ n ∈ t, n.flags.new = false ∧ StableN X o true n)) :=
+  ⟨validate_stable2 X o hq1 hq2 hl hw t hnp hp hh hpe, validate_fixpoint_iff2 X o hq1 hq2 hl hw t hnp hp hh hpe, StableTop_spec X o t⟩
+
+/-- non-vacuity (schema `Sc`, tree `tc`): the input is not stable (its `x` is new), so the validation changes it -/
+example : (({} : VOpts).present && tc.isEmpty) = false ∧ ¬ StableTop Xc {} tc ∧ (validate Xc {} tc).evs.length = 4 := by
+  refine ⟨rfl, ?_, by decide⟩
+  intro h
+  have := ((StableTop_spec Xc {} tc).1 h).2.2 (.term 2 { new := true } [] [49]) (by simp [tc])
+  exact absurd this.1 (by decide)
+
 /-- schema of the witness F189: `choice ch1 { case a1 { container c { choice ch2 { case a2 { leaf y; } case b2 { container c2 { } } } } }
 case b1 { leaf w; } }` — the non-presence container `c` is a member of the non-default case `a1` -/
 def S189 : Schema := { modName := "m", nodes := [
